@@ -296,7 +296,7 @@ func verifC31Gen(r *verifutil.Rand, i int, thorough bool) []string {
 	zone := verifC31Zones[r.Intn(len(verifC31Zones))]
 	verifC31SetLocal(zone)
 	format := verifC31Formats[r.Intn(len(verifC31Formats))]
-	name := r.Pick("cam1", "live/a", "x_1699990000.mp4", "a.b/c-d")
+	name := r.Pick("cam1", "live/a", "x_1699990000.mp4", "a.b/c-d", "cams//front")
 	hasF := strings.Contains(format, "%f")
 
 	// base instant; sometimes close to a DST transition of the zone
